@@ -14,6 +14,23 @@ def const(tree, name, default=''):
     return default
 
 
+# clauses added to a property's check after the seeded waves (the modules' EXPLANATION constants describe the original rules)
+MORE = {
+ 'C07': "(R07.4) component order of the linearised Hessian; the caller's component index is never applied to the weight column; (R07.5) the fixed coordinate of a boundary function is inserted at position len(x) - axis.",
+ 'C08': "(R08.4) update() iterates the variable sequence itself; (R08.6 = R01.7) bounding-box offsets in Gauss-node units of the common node count.",
+ 'C10': "(R10.5) restrict / restrict_rhs / restrict_matrix / extend / complete are compared after inlining with the selection operators they must apply (rows R_free_v, columns R_free).",
+ 'C11': "(R11.1) the matrix handed to the CSR kernels is only converted between storage formats; (R11.2) provenance of the sets each strategy extends; (R11.6) the restricted residual is computed after the last update of the iterate on every path; (R11.8 = R04.4) cache invalidation.",
+ 'C12': "(R12.G) memoised factorisations are keyed by everything they depend on.",
+ 'C13': "(R13.1) numeric attributes are text-encoded, lossy calls inside hash_key are reported; (R13.3) add() refuses as soon as the memoised hash exists.",
+ 'C14': "(R14.4) each candidate flip starts from the unflipped grid.",
+ 'C15': "(R15.5) the kernels receive the structure's own, unfiltered block pattern; (R15.8) the per-level pattern comes from the support search on every level.",
+ 'C16': "(R16.1) adjoint and transpose traverse the operands in the same order; (R16.4) accumulators are not narrowed to the first operand's dtype; (R16.5) a cyclic axis move is not replaced by an exchange.",
+ 'C17': "(R17.1) the corrective branch covers info > 0; (R17.7) load vector and integral use one tensor Gauss rule with the common node count.",
+ 'C18': "(R18.2) tensor.asarray(X) aliases X.",
+ 'C19': "(R19.1) the end knots are exact copies of a and b; (R19.3) the vectorised span search is stateless; (R19.5) knot differences come from the knot array.",
+ 'C20': "(R20.5) the rebuild is reached for every ImportError; (R20.6) a process removes only its own scratch directory and creates nothing importable under the cache directory before publication.",
+}
+
 props = [json.loads(l) for l in open(os.path.join(HERE, 'properties.jsonl'))]
 checks, na = [], []
 served = []
@@ -35,7 +52,8 @@ for p in props:
         engine='sa',
         level_claimed=dict(
             category='other',
-            text=('Static analysis of the current source: ' + const(tree, 'EXPLANATION') +
+            text=('Static analysis of the current source: ' + const(tree, 'EXPLANATION') + const(tree, 'EXPLANATION_MORE') +
+                  ('  Added after the seeded waves: ' + MORE[pid] if pid in MORE else '') +
                   ' In addition (R%s.0) every statement of the functions this property is anchored in (reference/scope.json) is compared '
                   'with the instance confirmed on the reference tree, modulo commutativity / keyword order / numeric spelling; a statement '
                   'that is exactly one semantic mutation away (swapped operands, arguments or subscripts, changed constant, flipped sign or '
